@@ -2,6 +2,7 @@ package main
 
 import (
 	"fmt"
+	"os"
 	"strings"
 
 	"golang.org/x/tools/go/ssa"
@@ -54,7 +55,7 @@ func (m *Machine) trackable(fr *frame) bool {
 	if !m.t2 || len(m.gs) < 2 || fr == nil || fr.g == nil {
 		return false
 	}
-	if fr.g.atomicDepth > 0 {
+	if fr.g.atomicDepth > 0 || fr.g.atomicExplicit > 0 {
 		return false
 	}
 	// accesses made by harness code (stubs, monitors, the harness body) are not the program's
@@ -140,8 +141,14 @@ func (m *Machine) onAccess(fr *frame, p *Value, write bool, instr ssa.Instructio
 	case *ssa.Store:
 		what = describeAddr(x.Addr)
 	}
+	if raceDebug && strings.Contains(what, raceDebugField) {
+		fmt.Printf("ACCESS g%d write=%v %s vc=%v what=%s\n", fr.g.id, write, m.site(fr, instr), fr.g.vc, what)
+	}
 	m.checkShadow(sc, fr, write, m.site(fr, instr), what)
 }
+
+var raceDebugField = os.Getenv("GOSYM_RACEDEBUG")
+var raceDebug = raceDebugField != ""
 
 func (m *Machine) localOf(fr *frame, p *Value) (int, bool) {
 	for i := range fr.locals {
@@ -193,7 +200,7 @@ func (m *Machine) onMapAccess(fr *frame, mp *MapV, write bool, instr ssa.Instruc
 
 func (m *Machine) atomicAcquire(p *Value) {
 	if vc := m.atomicVC[p]; vc != nil {
-		joinVC(&m.cur.vc, vc)
+		m.acq(vc, "race.go#1")
 	}
 }
 
